@@ -49,6 +49,13 @@ add("C16", "exploration", "runtime monitoring: recorder of parameters seen by bo
     "Call trees with context dictionaries attached at the root and at random inner edges; every entry must be found under its effective context only, with the documented hash; re-runs under the same / a different root context must execute exactly the predicted bodies; prevented nested calls must fail without executing.",
     "Effective-context closed form in vf.trees.simulate (inherit unless the edge attaches its own, which replaces entirely).", "DESIGN.md §4 C16")
 
+add("C15", "exploration", "runtime monitoring: slot-by-slot comparison of call_batch / map_over_range with individual calls on a twin store, store-state comparison, recorder body counts",
+    "Batches with duplicates, failing and not-to-be-memoized elements, random pre-memoized subsets, both raise_first_exception settings, four presentations and three store kinds; each batch is mirrored by individual calls on a twin store.",
+    "Failures compare by class and message prefix; stored exceptions by recorded class name and message.", "DESIGN.md §4 C15")
+add("C18", "exploration", "runtime monitoring: behaviour vectors (tree snapshots + audit hook + call outcomes) of configured back-ends and clusters compared with constructor-argument equivalents over the full option matrix",
+    "Every option combination x five source forms (inline dict, cluster config, JSON file, YAML jinja template, nested relative files) is built and its behaviour observed; explicit-argument overrides, all repository orders with duplicated names, and environment dumps are checked the same way.",
+    "Behaviour vector = where files appear, cache hits for three value sizes, write/forget behaviour, body execution; the matrix is enumerated completely.", "DESIGN.md §4 C18")
+
 NOT_BUILT = "check not built yet in this round (design in DESIGN.md §4); will be claimed once its monitor exists"
 
 
